@@ -214,8 +214,8 @@ PROPS = {
         "assumptions": COMMON_ASSUME,
     },
     "C05": {
-        "claim": 'Injectivity of canon and of the signed text (distinct JSON values => distinct signed bytes) are Lean theorems for all values; single-leaf edits of generated layouts/links are checked on the real code (old signatures rejected, ed25519 signature changes).',
-        "level_note": 'Trusted: Lean kernel; unforgeability of the signature schemes (ring) for the "never verifies" reading; metadata->JSON injectivity is in C16.',
+        "claim": 'Lean theorems for all values: canon and the signed text are injective (distinct JSON values => distinct signed bytes); composed with the document codec model (Model/Codec.lean, tied to the serde derives by the C16 doc_dec differential): two different links, two different layouts, two different steps or inspections are never signed over the same bytes - every field is observable in the signed bytes: names, materials/products with every digest, environment, byproducts, commands, thresholds, rules, authorized key ids, readme, key table, expiry (to the second). Single-leaf edits of generated layouts/links (incl. control-character neighbours, LF vs backslash-n, expiry +-1s) are checked on the real code: the old signatures must be rejected and the ed25519 signature must change.',
+        "level_note": 'Trusted: Lean kernel; unforgeability of the signature schemes (ring) for the "never verifies" reading; for layouts two outside facts enter as hypotheses (EnvInjective): chrono writes different texts for different whole-second instants, different keys have different JSON descriptions (C12).',
         "technique": 'Lean 4 theorems about an executable model + model/implementation correspondence check (differential run with property oracle)',
         "rule": "cases = generated layouts/links; every single-leaf edit of their JSON (strings, numbers, arrays, object keys, "
                 "expiry +-1s, LF vs backslash-n, quotes) that the parser accepts as a different value: the old signatures must "
@@ -223,8 +223,8 @@ PROPS = {
                 "reaches the signature primitive",
         "trusted_base": JSON_TB + ["'a signature made over one never verifies over the other' additionally rests on the "
                                    "unforgeability of the schemes (ring); the theorem covers the byte strings"],
-        "partial": ["metadata level: injectivity of the layout/link serialisation is the C16 codec theorem (composed in Props/C16)"],
-        "assumptions": COMMON_ASSUME,
+        "partial": ["layout level: injectivity of the RFC 3339 writer and of the public-key JSON description are hypotheses of c05_distinct_layouts_distinct_signed_bytes"],
+        "assumptions": COMMON_ASSUME + ["values are canonical: maps are taken in key order, one entry per key (what BTreeMap/HashMap denote)"],
     },
     "C16": {
         "claim": "Lean theorems for all values: decode(encode x) = x for links, steps, inspections, layouts, signatures and signed blocks (Model/Codec.lean: the serde derives of Link/Step/Inspection/Layout with Layout::try_into/Signature/Metablock with the untagged MetadataWrapper, field types VirtualTargetPath, TargetDescription, KeyId, u32) and for the hand-written codecs (artifact rules in every form, commands, byproducts with the flattened extra map); the readers are faithful: the members a reader consumed are verbatim the encoding of the fields it returns (rule keyword and prefixes, threshold, digests in lower-case hex, key ids, command arguments, environment entries, type tags of steps/inspections), a written link is never read as a layout, a parsed key table only holds entries filed under the key's own id. Correspondence: the model's decode+encode is compared with serde_json::from_value + to_value on valid and mutated documents of all seven kinds (doc_dec), rule and byproducts readers on arbitrary token arrays/objects; every metadata type obtainable from the builders (including their defaults) is serialised in four ways (to_string, pretty, canonical, JsonPretty), parsed and compared (value and byte-identical re-serialisation); an accepted document must survive its own wire form.",
